@@ -13,6 +13,7 @@ Record case := {
   c_ok1 : bool;                      (* first unmarshal succeeded *)
   c_parsed : option config;          (* the Go structs after the first unmarshal *)
   c_out1 : list outcome;
+  c_shown : list outcome;            (* the JSON printed by --proposer-config-check, decoded again *)
   c_marshalled : option json;        (* what the implementation marshalled after the lookups *)
   c_ok2 : bool;                      (* unmarshal of the marshalled text succeeded *)
   c_out2 : list outcome
@@ -103,6 +104,7 @@ Definition agree (c : case) : bool :=
       && option_eqb config_eqb (Some cfg0) (c_parsed c)
       && (let r1 := lookups cfg0 (c_vals c) (c_fbfee c) (c_fbgas c) in
           list_eqb outcome_eqb (fst r1) (c_out1 c)
+          && list_eqb outcome_eqb (fst r1) (c_shown c)
           && match c_marshalled c with
              | None => false
              | Some m =>
@@ -120,14 +122,15 @@ Definition agree (c : case) : bool :=
    [unmarshal] gives the document its meaning (which fields are present at which level);
    [resolve] is the documented precedence.  A document without meaning must be refused; a
    document with a meaning must be accepted, every validator must get exactly the settings the
-   precedence gives, nothing may panic, and after marshal -> unmarshal every validator must get
-   the same settings again. *)
+   precedence gives, nothing may panic, what --proposer-config-check prints must be those
+   settings, and after marshal -> unmarshal every validator must get the same settings again. *)
 Definition P_b (c : case) : bool :=
   match unmarshal (c_doc c) with
   | None => negb (c_ok1 c)
   | Some cfg =>
       c_ok1 c
       && list_eqb outcome_eqb (map (fun v => resolve cfg v (c_fbfee c) (c_fbgas c)) (c_vals c)) (c_out1 c)
+      && list_eqb outcome_eqb (c_out1 c) (c_shown c)
       && c_ok2 c
       && list_eqb outcome_eqb (c_out1 c) (c_out2 c)
   end.
